@@ -92,7 +92,7 @@ def run(ctx):
     res = ctx.res
     sc = trav.scope(ctx.thorough)
     allmaps = [(sc["inner"], m) for m in trav.maps(sc["inner"], sc["outside"], sc["maxlen"])]
-    allmaps += trav.sampled_maps(6000 if ctx.thorough else 110, seed=20261005)
+    allmaps += trav.sampled_maps(6000 if ctx.thorough else 70, seed=20261005)
     if not ctx.thorough:
         allmaps = allmaps[::2]
     root, overlay = str(ctx.src.root), dict(ctx.src.overlay)
